@@ -250,20 +250,21 @@ class Polyline:
         if not ret_new_indices:
             return new_polyline
 
-        # Compute indices of original vertices.
+        # `np.insert()` places the points in order of their (wrapped) index, and
+        # points given for the same index in the order given.
         old_num_v = self.num_v
-        stepwise_index_offsets = np.zeros(old_num_v, dtype=np.int64)
-        stepwise_index_offsets[indices[indices < old_num_v]] = 1
-        cumulative_index_offsets = np.cumsum(stepwise_index_offsets)
-        indices_of_original_vertices = np.arange(old_num_v) + cumulative_index_offsets
+        wrapped_indices = np.where(indices < 0, indices + old_num_v, indices)
+        order = np.argsort(wrapped_indices, kind="stable")
 
-        # Compute indices of inserted points. When more than one point is
-        # inserted, this will differ from `indices`.
-        # TODO: I think this will cause an IndexError when new points are
-        # inserted at the end. `indices + cumulative_index_offsets[indices - 1]`
-        # would work instead, but would produce an incorrect result for points
-        # inserted at the beginning.
-        indices_of_inserted_points = indices + cumulative_index_offsets[indices] - 1
+        # An original vertex moves up by the number of points inserted at or
+        # before its index.
+        indices_of_original_vertices = np.arange(old_num_v) + np.searchsorted(
+            wrapped_indices[order], np.arange(old_num_v), side="right"
+        )
+
+        # An inserted point moves up by the number of points inserted before it.
+        indices_of_inserted_points = np.empty(k, dtype=np.int64)
+        indices_of_inserted_points[order] = wrapped_indices[order] + np.arange(k)
 
         return new_polyline, indices_of_original_vertices, indices_of_inserted_points
 
